@@ -1,0 +1,17 @@
+//go:build verif
+
+package mta
+
+// VerifRoots returns the hash of every root slot (nil for an empty slot) and
+// which slots are occupied. Verification hook (add-only).
+func VerifRoots(a *Accumulator) (hashes [][]byte, occupied []bool) {
+	hashes = make([][]byte, len(a.roots))
+	occupied = make([]bool, len(a.roots))
+	for i, r := range a.roots {
+		if r != nil {
+			hashes[i] = r.Hash()
+			occupied[i] = true
+		}
+	}
+	return
+}
